@@ -190,6 +190,7 @@ Proof.
       * destruct pg as [x|pa pc]; [discriminate|]. split; [reflexivity|]. apply validate_props_group_iff. exact Hve.
       * apply guard_ok' in Hve. destruct (md_eprops md); [reflexivity | discriminate].
     + unfold validate_axes in Hax. destruct (md_axes md) as [axes|]; [|exact I].
+      destruct axes as [|ax0 axr]; [left; reflexivity|]. right. set (axes := ax0 :: axr) in *.
       apply rbind_ok in Hax. destruct Hax as [ng' [Hng' Hax]]. apply expect_group_ok in Hng'.
       destruct Hng' as [na' [nch' [-> Hng']]]. rewrite Hng in Hng'. inversion Hng'; subst na' nch'; clear Hng'.
       apply rbind_ok in Hax. destruct Hax as [npg [Hnpg Hax]]. apply expect_group_ok in Hnpg.
@@ -223,7 +224,8 @@ Proof.
     apply rbind_ok. exists eids. split; [apply expect_array_ok; exact Hei|].
     apply rbind_ok. exists tt. split; [apply guard_ok; apply dtype_eqb_true; symmetry; exact Hdt|].
     unfold validate_axes. destruct (md_axes md) as [axes|]; [|reflexivity].
-    destruct Hax as [pg [Hpg [Hgrp Hall]]]. destruct pg as [x|pa pc]; [discriminate|].
+    destruct axes as [|ax0 axr]; [reflexivity|]. set (axes := ax0 :: axr) in *.
+    destruct Hax as [Hnil | [pg [Hpg [Hgrp Hall]]]]; [discriminate|]. destruct pg as [x|pa pc]; [discriminate|].
     apply rbind_ok. exists (ZG na nch). split; [apply expect_group_ok; eauto|].
     apply rbind_ok. exists (ZG pa pc). split; [apply expect_group_ok; exists pa, pc; split; [reflexivity|]; unfold get; cbn [children]; exact Hpg|].
     apply forM__iff. intros ax Hin. apply validate_axis_iff. apply Hall. exact Hin.
